@@ -258,4 +258,55 @@ theorem refValue_generated (v : PyVal) :
       else if v.iospec then .ioData else .pickle := by
   simp [refValue, isLiteral, Generated.exportRefValueOrder, Generated.exportLiteralTest]
 
+/-! ### the climb through inlined comprehensions -/
+
+theorem contains_flatMap_binds (n : String) (ss : List PyScope) :
+    (ss.flatMap (·.binds)).contains n = pyBound n ss := by
+  induction ss with
+  | nil => rfl
+  | cons s rest ih =>
+    simp only [List.flatMap_cons, pyBound, List.any_cons] at *
+    rw [← ih]
+    simp [List.contains_eq_mem, List.mem_append]
+
+theorem classify_table (n : String) (ng : List String) (r : List Frame) :
+    classify n (.table ng :: r) = if ng.contains n then .localOrFree else .global := rfl
+
+theorem classify_comp (n : String) (b : List String) (r : List Frame) :
+    classify n (.comp b :: r) = if b.contains n then .localOrFree else classify n r := rfl
+
+theorem pyBound_cons (n : String) (s : PyScope) (ss : List PyScope) :
+    pyBound n (s :: ss) = (s.binds.contains n || pyBound n ss) := rfl
+
+theorem view_cons (s : PyScope) (rest : List PyScope) :
+    view (s :: rest) =
+      (if s.inlined then Frame.comp s.binds else Frame.table ((s :: rest).flatMap (·.binds))) :: view rest := rfl
+
+theorem ite_or_kind (a b : Bool) :
+    (if a = true then ScopeKind.localOrFree else if b = true then ScopeKind.localOrFree else ScopeKind.global) =
+      if (a || b) = true then ScopeKind.localOrFree else ScopeKind.global := by
+  cases a <;> cases b <;> rfl
+
+/-- the climb computes Python's rule, for every chain of scopes that ends in a scope with a table -/
+theorem classify_view (n : String) (ss : List PyScope) (m : PyScope) (hm : m.inlined = false) :
+    classify n (view (ss ++ [m])) = pyKind n (ss ++ [m]) := by
+  induction ss with
+  | nil =>
+    rw [List.nil_append, view_cons, hm]
+    simp only [Bool.false_eq_true, if_false]
+    rw [classify_table, contains_flatMap_binds]
+    rfl
+  | cons s rest ih =>
+    rw [List.cons_append, view_cons]
+    cases hs : s.inlined with
+    | true =>
+      simp only [if_true]
+      rw [classify_comp, ih]
+      simp only [pyKind, pyBound_cons]
+      exact ite_or_kind _ _
+    | false =>
+      simp only [Bool.false_eq_true, if_false]
+      rw [classify_table, contains_flatMap_binds]
+      rfl
+
 end MxModel.Export
